@@ -125,6 +125,39 @@ def scan_call_sites(ctx: Ctx):
     return out
 
 
+def rule_sd2(ctx: Ctx) -> RuleResult:
+    """SD-2: the multiplexed scan keeps the accumulator of each key in a container chosen from type(seed): an int seed
+    means array('q'), a bool seed array('B').  The plain scan has no such restriction, so an aggregate whose accumulator can
+    take other values (anything computed from the items) must not be seeded with an int / bool literal."""
+    from .linear import linform
+    r = RuleResult("SD-2", "a scan seeded with an int / bool literal only ever accumulates ints (the mux state is a typed array chosen from type(seed))")
+    for m, call, seed in scan_call_sites(ctx):
+        if not (isinstance(seed, ast.Constant) and isinstance(seed.value, int)):
+            continue            # float seeds hold any real number, other seeds are stored as objects
+        r.instances += 1
+        fn = m.enclosing_function(call)
+        acc = call.args[0] if call.args else next((k.value for k in call.keywords if k.arg == "accumulator"), None)
+        accfn = _callable_def(ctx, m, acc, fn) if acc is not None else None
+        if accfn is None:
+            raise AnalysisError("%s: the accumulator of a scan seeded with %r is not a local function" % (m.where(call), seed.value))
+        params = m.scopes[accfn].params
+        A = ("arg", params[0])
+        for p in ctx.fn_paths(m, accfn):
+            r.paths += 1
+            if p.outcome != "return" or p.value is None:
+                continue
+            f = linform(p.value)
+            ok = f is not None and set(f[0]) <= {A} and all(float(v).is_integer() for v in list(f[0].values()) + [f[1]])
+            r.groups.add((m.relpath, m.scopes[fn].qualname if fn is not None else "<module>"))
+            r.ob(ok, lambda: Finding(
+                "SD-2", "%s::%s{typed-seed}" % (m.relpath, m.scopes[fn].qualname if fn is not None else "<module>"), m.where(call),
+                "the scan is seeded with the %s literal %r, so the multiplexed implementation stores each key's accumulator in a typed array of %ss, "
+                "but the accumulator returns %s: on a MuxObservable a non-%s value raises (or is truncated) while the plain implementation accepts it" % (
+                    type(seed.value).__name__, seed.value, type(seed.value).__name__, show(p.value), type(seed.value).__name__), trace_of(p)))
+    r.require_instances(1)
+    return r
+
+
 def _literal_of_local(m, at, node):
     """seed = (False, None, NO_VALUE) ... scan(acc, seed=seed): the literal a local name is bound to (one assignment in
     the enclosing function), else the node itself"""
@@ -500,4 +533,4 @@ def _is_scan_like(ctx, opname):
     return opname in ("rxsci.data.to_list.to_list", "rxsci.operators.count.count")
 
 
-RULES = [rule_sd1, rule_sc1, rule_pu1]
+RULES = [rule_sd1, rule_sd2, rule_sc1, rule_pu1]
